@@ -963,15 +963,38 @@ func c13NewlineFlag(c *Ctx) {
 				if un, isNot := ifi.Cond.(*ssa.UnOp); isNot && un.X == res {
 					trueEdge = ifi.Block().Succs[1]
 				}
-				lost := ""
-				for b := range reachableFrom([]*ssa.BasicBlock{trueEdge}, stores) {
-					if stores[b] {
-						continue
+				lostFrom := func(g *ssa.Function, starts []*ssa.BasicBlock, stop map[*ssa.BasicBlock]bool) string {
+					lost := ""
+					for b := range reachableFrom(starts, stop) {
+						if stop[b] {
+							continue
+						}
+						if ret, isRet := b.Instrs[len(b.Instrs)-1].(*ssa.Return); isRet {
+							res := effectiveResults(ret)
+							if EKOf(p).KindsAt(res[len(res)-1], FactsOf(g).At(b)).Has(KNil) {
+								lost = p.InstrPos(ret)
+							}
+						}
 					}
-					if ret, isRet := b.Instrs[len(b.Instrs)-1].(*ssa.Return); isRet {
-						res := effectiveResults(ret)
-						if EKOf(p).KindsAt(res[len(res)-1], FactsOf(f).At(b)).Has(KNil) {
-							lost = p.InstrPos(ret)
+					return lost
+				}
+				lost := lostFrom(f, []*ssa.BasicBlock{trueEdge}, stores)
+				if lost != "" {
+					// a helper split off a statement boundary (`terminatedStatement`): its one caller records
+					// the statement end before it returns successfully
+					if sites := p.CallSitesOf(f); len(sites) == 1 && sites[0].Parent() != f {
+						g := sites[0].Parent()
+						gStores := map[*ssa.BasicBlock]bool{}
+						for _, st := range storesToField(g, "Parser", "didEndStatement", false) {
+							if b, isC := constBool(st.Val); isC && b {
+								gStores[st.Block()] = true
+							}
+						}
+						cb := sites[0].Block()
+						if gStores[cb] {
+							lost = ""
+						} else {
+							lost = lostFrom(g, cb.Succs, gStores)
 						}
 					}
 				}
@@ -986,6 +1009,13 @@ func c13NewlineFlag(c *Ctx) {
 	callers := map[string]int{}
 	for _, cs := range p.CallSitesOf(ase) {
 		callers[shortName(cs.Parent())]++
+	}
+	for _, cs := range p.CallSitesOf(ase) {
+		// a helper that only a statement boundary calls belongs to it
+		f := cs.Parent()
+		if sites := p.CallSitesOf(f); !allowed[shortName(f)] && len(sites) == 1 && allowed[shortName(sites[0].Parent())] {
+			allowed[shortName(f)] = true
+		}
 	}
 	for fn, k := range callers {
 		c.check(allowed[fn], "R6", "statement-end-caller "+fn, "", fmt.Sprintf("%d call(s)", k), "atStatementEnd is consulted from "+fn+", which is not a statement boundary")
